@@ -61,6 +61,7 @@ Shape(name, base) ==
       [] name = "sgr"  -> <<2000>>
       [] name = "sA"   -> <<2000>> \o Run(2, base) \o <<2000>>
       [] name = "wide" -> <<1000, 1001>>
+      [] name = "wide3" -> <<1000, 1001, 1002>>                  \* three 2-column glyphs: 6 columns, 3 characters
       [] name = "edge" -> Run(W - 1, base) \o <<1000>>          \* a 2-column glyph that does not fit the row
       [] name = "tab"  -> Run(1, base) \o <<TAB>> \o Run(1, base + 1)
       [] name = "tt"   -> <<TAB, TAB>>
